@@ -261,6 +261,27 @@ func (p *Program) ifaceMethod(m *types.Func) (*FuncContract, *FuncContract) {
 	return nil, nil
 }
 
+// isIfaceMethodName: "(pkg.Iface).Method" naming a method of an interface type.
+func (p *Program) isIfaceMethodName(name string) bool {
+	if !strings.HasPrefix(name, "(") {
+		return false
+	}
+	k := strings.Index(name, ").")
+	if k < 0 {
+		return false
+	}
+	it := p.ifaceType(name[1:k])
+	if it == nil {
+		return false
+	}
+	for i := 0; i < it.NumMethods(); i++ {
+		if it.Method(i).Name() == name[k+2:] {
+			return true
+		}
+	}
+	return false
+}
+
 func (p *Program) ifaceType(name string) *types.Interface {
 	p.mu.Lock()
 	defer p.mu.Unlock()
